@@ -434,13 +434,16 @@ func main() {
 	// history on one AccountDB against the first nSurv surviving calls on a twin, both finished
 	// with IntermediateRoot(true) and Commit(true).
 	emitCut := func(event string, h history, nOps, nSurv int) {
+		// what the queries answer after the calls / after the surviving calls alone (each on its own clone)
+		stReal, stTwin := project(replay(h.Start, h.Ops[:nOps])), project(replay(h.Start, h.Surv[:nSurv]))
 		ir, cr, croot, p1 := roots(replay(h.Start, h.Ops[:nOps]))
 		tir, tcr, tcroot, p2 := roots(replay(h.Start, h.Surv[:nSurv]))
 		if *corrupt == "root" && event == "Final" && nrev%5 == 0 {
 			tir = "00" + tir[2:]
 		}
 		ev := map[string]interface{}{"event": event, "a": 0, "x": nOps, "y": nSurv, "id": 0, "res": "",
-			"panicked": p1 + p2, "rootReal": ir, "rootTwin": tir, "commitReal": cr, "commitTwin": tcr, "state": map[string]interface{}{}}
+			"panicked": p1 + p2, "rootReal": ir, "rootTwin": tir, "commitReal": cr, "commitTwin": tcr, "state": map[string]interface{}{},
+			"stateReal": stReal, "stateTwin": stTwin}
 		ev["leafDiff"] = []interface{}{}
 		if ir != tir || cr != tcr {
 			ev["leafDiff"] = leafDiff(croot, tcroot)
